@@ -53,7 +53,7 @@ func Observe(name string)
 func Reached(name string)
 
 // AllocBudget turns on the allocation monitor: every later make() whose size
-// in bytes can exceed n is reported as a violation of "alloc-bounded".
+// in bytes can exceed n + 64 KiB (slack for the native measurement) is reported as a violation of "alloc-bounded".
 func AllocBudget(n int)
 
 func Go(f func())
